@@ -182,3 +182,24 @@ def run(ctx):
         probes = G.id_map_ops(n)
         if [H.map_apply(inv, H.map_apply(big, P)) for P in probes] != probes or [H.map_apply(big, H.map_apply(inv, P)) for P in probes] != probes:
             ctx.fail('CliffordMap.inverse', 'inverse of a valid map on %d qubits is not a two-sided inverse' % n, dict(N=n, small=small, pos=pos))
+    # maps whose table is stored in another dtype (unsigned and small integers, bool, float): same inverse and composition
+    import impl as _impl
+    pc_ = _impl.pc
+    for _ in range(ctx.budget(60, 700)):
+        n = rng.choice([1, 2, 2, 3, 4])
+        A, B = G.rand_map_ops(rng, n), G.rand_map_ops(rng, n)
+        dt = rng.choice([np.uint8, np.uint16, np.uint32, np.uint64, np.int8, np.int32, np.bool_, np.float64])
+        ctx.case(('dtype-map', tuple(A), tuple(B), dt.__name__), True, sample=dict(op='inverse/compose dtypes', dtype=dt.__name__))
+        ctx.count('dtype:' + dt.__name__)
+        mk = lambda rows: pc_.CliffordMap(np.array([O.to_g(o[0]) for o in rows]).astype(dt), np.array([o[1] for o in rows]))
+        want_inv = _impl.ops_of(_impl.cmap(A).inverse())
+        want_cmp = _impl.ops_of(_impl.cmap(A).compose(_impl.cmap(B)))
+        for nm, f, want in (('inverse', lambda: mk(A).inverse(), want_inv), ('compose', lambda: mk(A).compose(mk(B)), want_cmp)):
+            try:
+                res = f()
+                raw = np.asarray(res.gs).astype(float)
+                got = [O.from_gp([int(v) for v in g_], int(p_)) for g_, p_ in zip(np.asarray(res.gs), np.asarray(res.ps))] if np.isin(raw, (0.0, 1.0)).all() else ('non-binary table', raw.astype(int).tolist())
+            except Exception as e:
+                ctx.fail('CliffordMap.' + nm, 'implementation raised %r for a table stored as %s' % (e, dt.__name__), dict(A=A, B=B)); continue
+            if got != want:
+                ctx.fail('CliffordMap.' + nm, '%s of a map whose table is stored as %s differs from the same map stored as int64: %s' % (nm, dt.__name__, str(got)[:160]), dict(A=A, B=B, want=want))
